@@ -6,6 +6,9 @@
 (*               acceptor of RegexSem wherever the string lies inside the specified grammar.    *)
 (*   JudgeRun  : observed step / stack / poll counts of matching runs against the budget        *)
 (*               bounds of the RegexVM model; outcome typing.                                   *)
+(*   JudgeFold : matching under the i flag against subjects with characters whose case mapping  *)
+(*               is several characters or leaves ASCII: outcome typing, and the exact result     *)
+(*               wherever the documented ASCII-only folding rule decides it.                     *)
 (* The budget model itself (RegexVM.tla) is model-checked separately.                           *)
 EXTENDS RegexSem, Json, IOUtils
 
@@ -19,6 +22,16 @@ FlagLetters == U("gimsuyx")                                  \* x: not a flag
 MaxFlagLen == 3
 \* special constructions: [name, head, unit, count, tail] = head \o unit^count \o tail (built by the driver)
 Special(name, head, unit, count, tail, expect) == [name |-> name, head |-> U(head), unit |-> U(unit), count |-> count, tail |-> U(tail), expect |-> expect]
+\* huge counts over bodies that match only the empty string (most of them compile to few or no instructions): the count
+\* is the only thing that is large, so construction has to be bounded in the count.  "outside": an implementation may refuse
+\* them as too large and whether a quantified assertion (\b{n}) is in the grammar is the business of the string space;
+\* judged here: defined outcome in every channel, the channels agree, and the compiler's work is bounded (ConsWorkOK).
+EmptyBodies == {<<"nc", "(?:)">>, <<"cap", "()">>, <<"la", "(?=)">>, <<"alt", "(?:|)">>, <<"wb", "\\b">>}
+HugeCounts == {<<"1e6", "1000000">>, <<"1e9", "1000000000">>, <<"2to1e9", "2,1000000000">>}
+EmptyRepSpecials ==
+  {Special("emptyrep-" \o b[1] \o "-" \o c[1], b[2] \o "{" \o c[2] \o "}", "", 0, "", "outside") : b \in EmptyBodies, c \in HugeCounts}
+  \cup {Special("emptyrep-nested-" \o c[1], "((?:){" \o c[2] \o "}){" \o c[2] \o "}", "", 0, "", "outside") : c \in HugeCounts}
+  \cup {Special("emptyrep-nested-nc-" \o c[1], "(?:(?:){" \o c[2] \o "}){" \o c[2] \o "}", "", 0, "", "outside") : c \in HugeCounts}
 Specials == {
   Special("groups-seq", "", "(a)", 3000, "", "accept"), Special("groups-nested", "", "(", 3000, "", "reject"),
   Special("groups-nested-closed", "(((((((((((((((((((((((((((((((((((((((((((((((((((((((((((((", "a", 1, ")))))))))))))))))))))))))))))))))))))))))))))))))))))))))))))", "accept"),
@@ -31,6 +44,7 @@ Specials == {
   Special("unterminated-class", "[abc", "", 0, "", "reject"), Special("lookbehind-open", "(?<=a", "", 0, "", "reject"),
   Special("star-chain", "a", "*", 2, "", "reject"), Special("lazy-chain", "a+?", "?", 1, "", "reject"),
   Special("long-literal", "", "ab", 20000, "", "accept"), Special("deep-lookahead", "", "(?=", 400, "", "reject")}
+  \cup EmptyRepSpecials
 
 \* ---------------- matching grid -----------------------------------------------------------------
 \* [fam, src, unit, tail]: subject = unit^n \o tail
@@ -45,6 +59,24 @@ Families == {
 Lengths == IF Quick THEN {10, 100, 10000} ELSE {10, 30, 100, 1000, 10000}
 Modes == {"api", "api-deadline", "script", "script-deadline"}
 
+\* ---------------- case-folding grid (matching under the i flag) -----------------------------------
+\* subject characters whose upper / lower case mapping is several characters or leaves (enters) ASCII:
+\*   U+00DF (upper "SS"), U+0130 (lower "i" + U+0307), U+0131 (upper "I"), U+FB01 (upper "FI"), U+1E9E (lower U+00DF),
+\*   U+03C2 (upper U+03A3, whose lower is U+03C3), U+1F600 as a surrogate pair.
+FoldChars == {<<223>>, <<304>>, <<305>>, <<64257>>, <<7838>>, <<962>>, <<55357, 56832>>}
+\* exact: the pattern is ASCII, so the documented folding rule decides the result (FoldExpect); otherwise only the outcome
+\* type is judged (for non-ASCII pattern letters both "unchanged" and the Unicode mapping are accepted, DESIGN 4.4 item 6;
+\* whether \w and . take a non-ASCII unit is not a question of folding: C09's business)
+FoldPat(name, src, exact) == [name |-> name, src |-> src, exact |-> exact]
+FoldPatterns(c) == {
+  FoldPat("letter", U("a"), TRUE), FoldPat("class", U("[a-z]"), TRUE), FoldPat("neg-class", U("[^a-z]"), TRUE),
+  FoldPat("bref", U("(x)\\1"), TRUE), FoldPat("word", U("\\w"), FALSE), FoldPat("dot", U("."), FALSE),
+  FoldPat("self", c, FALSE), FoldPat("self-class", U("[") \o c \o U("]"), FALSE), FoldPat("self-bref", U("(") \o c \o U(")\\1"), FALSE)}
+FoldFlags == {U("i"), U("gi"), U("im")}
+FoldSubjects(c) == {c, U("x") \o c, c \o U("A"), c \o c, U("xX") \o c, c \o U("a") \o c, U("_") \o c \o U("1")}
+\* package API exec; script level: exec, test, String.prototype.match / search / replace / split with the regex
+FoldOps == <<"api", "exec", "test", "match", "search", "replace", "split">>
+
 \* ---------------- Enum ----------------------------------------------------------------------------
 VARIABLES ph, cur, rec_i
 vars == <<ph, cur, rec_i>>
@@ -54,6 +86,9 @@ EnumNext == /\ ph = "start" /\ UNCHANGED rec_i
                \/ ph' = "out" /\ cur' = [kind |-> "flags", letters |-> FlagLetters, maxlen |-> MaxFlagLen]
                \/ \E s \in Specials : ph' = "out" /\ cur' = [kind |-> "special"] @@ s
                \/ \E f \in Families : ph' = "out" /\ cur' = [kind |-> "family", lengths |-> Lengths, modes |-> Modes] @@ f
+               \* one record per character: the driver runs patterns x flags x subjects x ops (the cross product stated here)
+               \/ \E c \in FoldChars : ph' = "out" /\ cur' = [kind |-> "fold", c |-> c, pats |-> FoldPatterns(c), flags |-> FoldFlags,
+                                                                 subjects |-> FoldSubjects(c), ops |-> FoldOps]
 EnumEmit == ph = "start" \/ PrintT(ToJson(cur))
 \* laws of the acceptor, checked over every string up to length 3 of the vocabulary (INVARIANT of a separate small run)
 RECURSIVE WordsUpTo(_, _)
@@ -73,30 +108,50 @@ AcceptorLaw ==
 \* ---------------- JudgeCons ---------------------------------------------------------------------------
 Recs == ndJsonDeserialize(IOEnv.OBS_FILE)
 \* a construction record: [id, p (units) | big (name of a special with its expectation), ch: outcomes of the channels
-\*   <<api, literal, RegExp(), new RegExp()>>, un: outcomes of the same script channels without try/catch]
+\*   <<api, literal, RegExp(), new RegExp(), "s".match(P), "s".search(P)>>, un: outcomes of the script channels without try/catch;
+\*   specials also: plen (length of the pattern), work = <<AST nodes visited by the compiler, instructions emitted>> (API channel)]
+\* String.prototype.match and search build a regular expression from a string argument (ECMA-262 22.1.3.13 / .19: RegExpCreate),
+\* so they are construction channels; split / replace / replaceAll with a string do not construct one.
 \* outcome codes: "ok" | "SyntaxError" (caught by script try/catch) | "caught:<class>" | "syntax" (eval raised JSSyntaxError)
 \*   | "jserror:<name>" | "RegExpError" (API channel: the package's own documented error) | "host:<type>" | "hang" | "skip"
 AcceptOutcome(o) == o = "ok"
 \* uncaught: any JSError at the Python boundary (its class name is recorded, not judged: DESIGN 4.4 item 8)
 RejectOutcome(c, o) == IF c = 1 THEN o = "RegExpError" ELSE o \in {"SyntaxError", "syntax", "jserror"}
 TotalOutcome(c, o) == o = "skip" \/ AcceptOutcome(o) \/ RejectOutcome(c, o)
+ConstructorChannels == 2..4          \* literal, RegExp(), new RegExp()
+StringChannels == {5, 6}             \* "s".match(P), "s".search(P)
+\* bounded construction work, by counting (not by the clock): the compiler may visit AST nodes only in proportion to the program
+\* it produces.  An AST has at most 3L nodes for a pattern of length L; a visit either emits an instruction somewhere below it
+\* (each instruction lies below at most 3L nested visits) or is one of at most 3L barren nodes next to such a visit - unless a
+\* body that emits nothing is compiled over and over, once per count of its quantifier.  Generous: (3L)^2 visits per instruction.
+\* work[1] = -1: the compiler's internals could not be observed (not judged; the absolute counting cap and the watchdog remain).
+WorkFactor(plen) == IF plen >= 10000 THEN 1000000000 ELSE 9 * plen * plen
+ConsWorkOK(r) == r.work[1] < 0 \/ r.work[1] \div (r.work[2] + 1) <= WorkFactor(r.plen)
 \* why does the engine disagree with the acceptor?  the grammar with one rule relaxed at a time
 HugeNames == {"quant-huge", "quant-huge-range"}
 ConsVerdict(r) ==
   LET cls == IF "expect" \in DOMAIN r THEN r.expect ELSE Classify(r.p)
-      Bad(c, o) ==                                  \* -> "" (fine) | deviation name | "!" (unexplained)
+      \* ref: what new RegExp(P) did in the same form (caught / uncaught)
+      Bad(c, o, ref) ==                             \* -> "" (fine) | deviation name | "!..." (unexplained)
         IF o = "skip" THEN ""
         ELSE IF ~TotalOutcome(c, o)
              THEN (IF o = "hang" /\ "name" \in DOMAIN r /\ r.name \in HugeNames THEN "Dev_QuantifierUnroll"   \* the compiler unrolls counted quantifiers: {10^8} never finishes
-                   ELSE IF c > 1 /\ o = "host:RegExpError" /\ cls # "accept" THEN "Dev_RegExpErrorHost"      \* the parser's private error type leaks out of eval
-                   ELSE IF c > 1 /\ o = "host:RegExpError" THEN "!accept-rejected"
+                   \* the parser's private error type leaks out of eval at the three constructor sites (the finding names them; the
+                   \* string-pattern channels are not covered by it: there the same leak is reported)
+                   ELSE IF c \in ConstructorChannels /\ o = "host:RegExpError" /\ cls # "accept" THEN "Dev_RegExpErrorHost"
+                   ELSE IF c \in ConstructorChannels /\ o = "host:RegExpError" THEN "!accept-rejected"
                    ELSE "!")
+        ELSE IF c = 1 /\ "work" \in DOMAIN r /\ ~ConsWorkOK(r) THEN "!compile-work"
         \* lexer.py: "/=" is always taken as the divide-assign token, so a literal whose pattern starts with "=" is a syntax error
         ELSE IF c = 2 /\ cls # "reject" /\ "p" \in DOMAIN r /\ r.p # <<>> /\ r.p[1] = 61 /\ RejectOutcome(c, o) THEN "Dev_LiteralSlashAssign"
         ELSE IF cls = "accept" /\ ~AcceptOutcome(o) THEN "!accept-rejected"
         ELSE IF cls = "reject" /\ AcceptOutcome(o) THEN "!reject-accepted"
+        \* whatever the class (also outside the judged grammar): a string pattern is accepted iff new RegExp(pattern) accepts it
+        ELSE IF c \in StringChannels /\ ref # "skip" /\ TotalOutcome(4, ref) /\ AcceptOutcome(o) # AcceptOutcome(ref) THEN "!string-channel-disagrees"
         ELSE ""
-  IN [id |-> r.id, cls |-> cls, bad |-> [c \in 1..Len(r.ch) |-> Bad(c, r.ch[c])], un |-> [c \in 1..Len(r.un) |-> Bad(c + 1, r.un[c])]]
+      RefOf(seq, k) == IF k <= Len(seq) THEN seq[k] ELSE "skip"
+  IN [id |-> r.id, cls |-> cls, bad |-> [c \in 1..Len(r.ch) |-> Bad(c, r.ch[c], RefOf(r.ch, 4))],
+      un |-> [c \in 1..Len(r.un) |-> Bad(c + 1, r.un[c], RefOf(r.un, 3))]]
 HasFwd(a) == Fwd(a, 0).bad
 \* second pass over the disagreements only: name the rule of the grammar the engine gets wrong
 \*   rec: [id, p, kind ("accept-rejected" | "reject-accepted")]
@@ -122,7 +177,8 @@ FlagVerdict(r) ==
                    ELSE IF c = 2 /\ cls = "reject" /\ ~known /\ o \in {"caught:ReferenceError", "jserror"} THEN "Dev_FlagsNotValidated"
                    ELSE IF ~TotalOutcome(c, o) THEN "!"
                    ELSE IF cls = "accept" /\ ~AcceptOutcome(o) THEN "!accept-rejected"
-                   ELSE IF cls = "reject" /\ AcceptOutcome(o) THEN "Dev_FlagsNotValidated"
+                   \* as-is: the package API and the lexer take any letters; RegExp() / new RegExp() validate them
+                   ELSE IF cls = "reject" /\ AcceptOutcome(o) THEN (IF c \in {1, 2} THEN "Dev_FlagsNotValidated" ELSE "!reject-accepted")
                    ELSE ""
   IN [id |-> r.id, cls |-> cls, bad |-> [c \in 1..Len(r.ch) |-> Bad(c, r.ch[c])]]
 
@@ -159,5 +215,28 @@ RunVerdict(r) ==
           IF r.mode \in {"api-deadline", "script-deadline"} /\ r.out = "capped" THEN "!deadline-ignored" ELSE "">>
   IN [id |-> r.id, bad |-> SelectSeq(clauses, LAMBDA c : c # "")]
 RunInit == /\ rec_i \in 1..Len(Recs) /\ ph = "run" /\ cur = <<>> /\ PrintT(ToJson(RunVerdict(Recs[rec_i])))
+
+\* ---------------- JudgeFold ---------------------------------------------------------------------------
+\* a fold record: [id, src (units), fl (units), subj (units), exact, ops, out: one code per op, ty: detail (recorded, not judged)]
+\* outcome codes: "match" | "null" | "caught" (script catch received an error) | "jserror" | "host" | "hang" | "timelimit" | "noresult"
+\* Totality: a match, null or - at script level - an error of the JSError family; a host exception (the defect this grid was
+\* added for: ord() of the two-character upper case of U+00DF) or a hang never.
+FoldTyped(c, o) == o \in {"match", "null"} \/ (c > 1 /\ o \in {"caught", "jserror"})
+\* The documented folding rule (/repo/spec.md "RegExp: case folding only for ASCII"; DESIGN 4.4 item 6) = RegexSem's Canon:
+\* only ASCII letters are folded, so an ASCII letter or range of the pattern never takes a non-ASCII subject unit through
+\* folding and a negated ASCII class takes every one of them.  For these characters ECMA-262's Canonicalize agrees (a mapping
+\* to several units, or from a non-ASCII to an ASCII unit, is not applied).  Only match / null is compared: positions would
+\* depend on how an astral character is counted (C16's business).
+FoldExpect(r) ==
+  LET t == Parse(r.src)
+      f == Flags(\E k \in 1..Len(r.fl) : r.fl[k] = 105, \E k \in 1..Len(r.fl) : r.fl[k] = 109, FALSE)
+  IN IF ~t.ok THEN "?" ELSE IF Search(t.a, r.subj, f, 0, {}).ok THEN "match" ELSE "null"
+FoldVerdict(r) ==
+  LET exp == IF r.exact THEN FoldExpect(r) ELSE "-"
+      Bad(c) == IF ~FoldTyped(c, r.out[c]) THEN "!outcome"
+                ELSE IF r.exact /\ r.out[c] # exp THEN "!folding"
+                ELSE ""
+  IN [id |-> r.id, exp |-> exp, bad |-> [c \in 1..Len(r.out) |-> Bad(c)]]
+FoldInit == /\ rec_i \in 1..Len(Recs) /\ ph = "fold" /\ cur = <<>> /\ PrintT(ToJson(FoldVerdict(Recs[rec_i])))
 JudgeNext == UNCHANGED vars
 =============================================================================
